@@ -878,6 +878,7 @@ package bkl
 //@ func Parser.findMatches(p, doc, pat) (res)
 //@   uses filterMatchDistinct, filterMatchSub, rappNil, rsnocApp
 //@   requires (rdistinct (Parser.docs p))
+//@   requires (forall ((r Int)) (=> (rmem r (Parser.docs p)) (not (= r 0))))
 //@   ensures (= res (ite (not (= (filterMatch (heap Document.Data) (parentsOf (heap Parser.docs) (heap Document.ID) (heap Document.Parents) p doc) pat) RNil))   [C02]
 //@                       (filterMatch (heap Document.Data) (parentsOf (heap Parser.docs) (heap Document.ID) (heap Document.Parents) p doc) pat)
 //@                       (filterMatch (heap Document.Data) (Parser.docs p) pat)))
